@@ -20,6 +20,11 @@ pub fn noncanon(kind: &str, content: &str) -> Vec<(&'static str, String)> {
             let trimmed = dec.trim_end_matches('0');
             if trimmed != dec { v.push(("amount-short-decimals", put(format!("{int},{trimmed}")))); }
             if kind != "61" && kind != "90C" && kind != "90D" && kind != "11" { v.push(("amount-leading-zero", put(format!("0{int},{dec}")))); }
+            // length boundaries of the nd format, with and without the separator (15d; 17d for field 19, 12d for rates)
+            let n = match kind { "19" => 17usize, "36" | "37H" => 12, _ => 15 };
+            for (name, digits) in [("amount-full-length-no-separator", n), ("amount-one-short-no-separator", n - 1)] { v.push((name, put("9".repeat(digits)))); }
+            v.push(("amount-full-length-integer", put(format!("{},", "9".repeat(n - 1)))));
+            v.push(("amount-full-length-one-decimal", put(format!("{},5", "9".repeat(n - 2)))));
         }
     }
     match kind {
